@@ -2539,6 +2539,7 @@ def check_C18(tier):
                 err, acc = int(l.split()[1]), int(l.split()[2])   # the implementation's own codes
         nstates += n
         why = None
+        readable = False
         if any(l.startswith("DOTPANIC") for l in lines):
             why = "DrawGrammar panics"
         # ---- DOT
@@ -2575,10 +2576,13 @@ def check_C18(tier):
                 exp_red = ["%s: reduce rule at %d" % (dot_escape(names[x]), -d) for x, d in enumerate(rows[q_]) if d < 0]
                 if head != "<f0> state %d" % q_:
                     why = "node header %r for state %d" % (head, q_)
+                    readable = re.fullmatch(r"<f0> state \d+", head) is not None
                 elif items_txt != exp_items:
                     why = "items shown for state %d are %s, the state holds %s" % (q_, items_txt, exp_items)
+                    readable = bool(items_txt) and all(re.fullmatch(r"\S+-\\>(ε|(•? \S+)+•?)", x) for x in items_txt)
                 elif red_txt != exp_red:
                     why = "reduce annotations of state %d are %s, the table has %s" % (q_, red_txt, exp_red)
+                    readable = all(re.fullmatch(r".+: reduce rule at \d+", x) for x in red_txt)
                 elif filled != (acc in rows[q_]):
                     why = "accept decoration of state %d is %s" % (q_, filled)
                 if why:
@@ -2593,12 +2597,14 @@ def check_C18(tier):
             blocks_txt = sec.split("--------state ")[1:]
             if len(blocks_txt) != n:
                 why = "listing shows %d states, the automaton has %d" % (len(blocks_txt), n)
+                readable = len(blocks_txt) > 0
             for bi, b in enumerate(blocks_txt):
                 if why:
                     break
                 bl = b.split("\n")
                 if not bl[0].startswith("%d-" % bi):
                     why = "listing state header %r at position %d" % (bl[0], bi)
+                    readable = re.match(r"\d+-", bl[0]) is not None
                     break
                 gi = bl.index("GOTO:") if "GOTO:" in bl else len(bl)
                 got_items = bl[1:gi]
@@ -2613,8 +2619,10 @@ def check_C18(tier):
                 ws = lambda ls: [x.split() for x in ls]
                 if ws(got_items) != ws(exp_items):
                     why = "listing items of state %d: %s, the state holds %s" % (bi, got_items, exp_items)
+                    readable = bool(got_items) and all(re.fullmatch(r"\S+-->( \S+ )*@( \S+ )*", x) for x in got_items)
                 elif ws(got_gotos) != ws(exp_gotos):
                     why = "listing transitions of state %d: %s, the automaton has %s" % (bi, got_gotos, exp_gotos)
+                    readable = all(re.fullmatch(r"at \S+ goto \d+ ?", x) for x in got_gotos) and (bool(got_gotos) or not exp_gotos)
         if why is None and "==========Show LookAhead SET===============" in listing:
             sec = listing.split("==========Show LookAhead SET===============")[1].split("\n")
             got = sorted(x for x in sec if ":" in x and "-->" in x)
@@ -2629,8 +2637,11 @@ def check_C18(tier):
                 return (a, tuple(sorted(b.split())))
             if sorted(map(canon, got)) != sorted(map(canon, exp)):
                 why = "listing lookahead sets differ from the lookaheads used for the table: %s vs %s" % (sorted(map(canon, got))[:3], sorted(map(canon, exp))[:3])
+                readable = bool(got) and all(re.fullmatch(r"\d+:\S+-->.* : .*", x) for x in got)
         if why:
             kind = next((k for pre, k in C18_TEXT_KINDS if why.startswith(pre)), "struct")
+            if readable:
+                kind = "struct"        # written in the known notation, but saying something else: a wrong view
             c18_bad.append((kind, {"key": common.finding_key({"src": c["src"], "why": why[:60]}),
                                    "what": "debug listing / DOT graph does not describe the generated parser: " + why,
                                    "replay": {"property": pid, "grammar_file": c["src"], "why": why}}))
